@@ -127,6 +127,7 @@ class TraceVerdict:
         self.cov: set = set()
         self.lines = 0
         self.files = 0
+        self.counts: Dict[str, int] = {}
 
 
 def trace_cfg(enabled: Iterable[str], flags: Optional[Dict[str, bool]] = None, extra_consts: str = "") -> str:
@@ -168,6 +169,9 @@ def validate(ctx: Ctx, files: Sequence[Path], enabled: Iterable[str], *, flags: 
         if covr:
             for c in json.loads(tlc.tla_str_to_py(covr[-1])):
                 tv.cov.add(tuple(c))
+        for raw in tlc.printed(res, "CNTS")[-1:]:
+            for c in json.loads(tlc.tla_str_to_py(raw)):
+                tv.counts[c["k"]] = tv.counts.get(c["k"], 0) + int(c["n"])
         tv.lines += res.distinct
         tv.files += 1
     return tv
